@@ -23,7 +23,8 @@ CHUNK = 100
 TIERS = {'quick': dict(runs=60000, budget_s=70), 'thorough': dict(runs=2500000, budget_s=1500)}
 KINDS = ['list', 'dict', 'tuple', 'box']
 # bundled container printers that take part in cycle detection too (seeded histories only)
-MORE_KINDS = ['deque', 'odict', 'ns', 'mylist', 'mydict', 'ddict']
+MORE_KINDS = ['deque', 'odict', 'ns', 'mylist', 'mydict', 'ddict', 'ntuple', 'chainmap']
+NTL = collections.namedtuple('NTL', 'items tag')
 RULE = ('run index < K enumerates ALL graphs with <= 3 nodes over the node kinds list / dict / tuple-holding-a-list / '
         'Box and every subset of the n*n possible edges (self loops included); each is printed from every root, '
         're-printed in another order, and (if it has a Box) printed again after an aborted print. Thorough adds all '
@@ -138,8 +139,8 @@ def generate(rng, idx, tier):
         elif k == 'dele':
             ops.append(['del', rng.randrange(n), rng.randrange(4)])
         elif k == 'prt':
-            ops.append(['print', rng.randrange(n), {'width': rng.choice([10, 30, 79]),
-                                                    'indent': rng.choice([4, 4, 2])}])
+            ops.append(['print', rng.randrange(n), {'width': rng.choice([10, 30, 79]), 'indent': rng.choice([4, 4, 2]),
+                                                    'sort_dict_keys': rng.random() < 0.2}])
         elif k == 'abort':
             ops.append(['abort', rng.randrange(n), rng.randrange(1, 4)])
         else:
@@ -167,12 +168,25 @@ class MD(dict):
     pass
 
 
+SORT_KEYS = [False]     # sort_dict_keys setting of the print being modelled
+
+
+def _dict_keys(n):
+    ks = list(n.keys())
+    if SORT_KEYS[0] and not isinstance(n, collections.OrderedDict):
+        ks.sort()
+    return ks
+
+
 def kids(n):
     n = _unwrap(n)
     if isinstance(n, (list, tuple, collections.deque)):
         return list(n)
+    if isinstance(n, collections.ChainMap):
+        # printed as ChainMap(<maps...>); an empty single map is omitted by the printer
+        return [m for m in n.maps] if (len(n.maps) > 1 or n.maps[0]) else []
     if isinstance(n, dict):
-        return list(n.values())
+        return [n[k] for k in _dict_keys(n)]
     if isinstance(n, types.SimpleNamespace):
         return [vars(n)[k] for k in sorted(vars(n))]
     if isinstance(n, Box):
@@ -194,8 +208,10 @@ def expect(n, path, budget):
     path.add(id(n))
     ch = [expect(k, path, budget) for k in ks]
     path.discard(id(n))
+    if isinstance(n, NTL):
+        return ['NTL', ['items', 'tag'], ch]
     if isinstance(n, dict):
-        return [type(n).__name__, list(n.keys()), ch]
+        return [type(n).__name__, _dict_keys(n), ch]
     if isinstance(n, types.SimpleNamespace):
         return [type(n).__name__, sorted(vars(n)), ch]
     return [type(n).__name__, None, ch]
@@ -232,6 +248,10 @@ def parse(text):
             name = f.attr if isinstance(f, ast.Attribute) else getattr(f, 'id', '?')
             if name == 'Box':
                 return ['Box', None, [conv(x) for x in e.args]]
+            if name == 'NTL':
+                return ['NTL', [k.arg for k in e.keywords], [conv(k.value) for k in e.keywords]]
+            if name == 'ChainMap':
+                return ['ChainMap', None, [conv(x) for x in e.args]]
             if name == 'deque':
                 return ['deque', None, seq(e.args[0])]
             if name == 'ML':
@@ -266,6 +286,8 @@ def execute(spec):
         counters[k] = counters.get(k, 0) + n
 
     def tgt(p):
+        if isinstance(p, collections.ChainMap):
+            return p.maps[0]
         return p[0] if isinstance(p, tuple) else p
 
     def fail(cls, sig, **d):
@@ -285,6 +307,11 @@ def execute(spec):
             elif kind == 'tuple':
                 leaf[0] += 1
                 nodes.append(([], leaf[0]))
+            elif kind == 'ntuple':
+                leaf[0] += 1
+                nodes.append(NTL([], leaf[0]))        # like 'tuple': cycles pass through the list field
+            elif kind == 'chainmap':
+                nodes.append(collections.ChainMap({}))  # edges live in maps[0], a real dict on the path
             elif kind == 'deque':
                 nodes.append(collections.deque())
             elif kind == 'odict':
@@ -350,6 +377,7 @@ def execute(spec):
             if not nodes:
                 continue
             root = nodes[op[1] % len(nodes)]
+            SORT_KEYS[0] = bool(k == 'print' and op[2].get('sort_dict_keys'))
             try:
                 exp = expect(root, set(), [MAX_EXPECT])
             except OverflowError:
